@@ -10,6 +10,7 @@ From AS Require Import Effects.
 From AS.Spec Require Import Terminal.
 From AS.Model Require Import Sgr Tokenizer Render Scrub Parse StrOps FormatSpec Exec.
 From AS.Proofs Require Import TableProofs SliceProofs PadProofs ApplyProofs SgrAlgebra ApplyDisplay GenFns ExecProofs InvariantProofs ReachableCorollaries.
+From AS.Proofs Require GenGuards.
 
 (* the text never changes *)
 Theorem C06_text : forall s new st en top, base (apply_fmt s new st en top) = base s.
@@ -138,6 +139,17 @@ Theorem C06_bounds_are_code : forall (len : nat) (v : option Z) (d : nat),
   Z.of_nat (slice_idx len v d) = AS.Gen.Fns.gen_slice_val_to_idx (Z.of_nat len) v (Z.of_nat d).
 Proof. exact slice_idx_is_code. Qed.
 Print Assumptions C06_bounds_are_code.
+
+(* ... and the "empty range or empty settings is a no-op" test IS the code's guard (`if not settings or start >= len(self._s)
+   or end <= start: return`, re-translated on every run): with a truthy settings argument it is Ops.range_empty, with a
+   falsy one the call always returns at once *)
+Theorem C06_guard_is_code : forall len start e : nat,
+  range_empty len start e = AS.Gen.Fns.gen_apply_skip true (Z.of_nat start) (Z.of_nat e) (Z.of_nat len).
+Proof. exact GenGuards.apply_guard_is_code. Qed.
+Theorem C06_guard_falsy : forall start e len : Z, AS.Gen.Fns.gen_apply_skip false start e len = true.
+Proof. exact GenGuards.apply_guard_falsy. Qed.
+Print Assumptions C06_guard_is_code.
+Print Assumptions C06_guard_falsy.
 
 (* FOR EVERY REACHABLE VALUE: with the new setting objects allocated as the library does (fresh
    identities, here `fresh texts (next_id p)`), characters outside the range keep their settings and
